@@ -17,8 +17,9 @@ FAMILIES = {
     "F4": (["x"], ["k"]),  # dx/dt = k x
     "F5": (["x"], ["c"]),  # dx/dt = c         (no steady state)
     "F6": (["x", "y", "z"], ["c", "k1", "k2", "k3"]),  # 3-chain
+    "F1n": (["x"], ["c", "k", "n"]),  # dx/dt = n c - k x with the COEFFICIENT n computed from a parameter
 }
-AUTONOMOUS = {"F1", "F2", "F2r", "F4", "F5", "F6"}
+AUTONOMOUS = {"F1", "F2", "F2r", "F4", "F5", "F6", "F1n"}
 
 
 def _dec(x, k):  # noqa: ANN001, ANN202
@@ -40,6 +41,11 @@ def build_model(spec: dict):  # noqa: ANN201
     m.add_variables({k: float(y0[k]) for k in FAMILIES[fam][0]})
     if fam == "F1":
         m.add_reaction("vin", fnlib.const, args=["c"], stoichiometry={"x": 1})
+        m.add_reaction("vout", fnlib.ma1, args=["x", "k"], stoichiometry={"x": -1})
+    elif fam == "F1n":
+        from mxlpy import Derived
+
+        m.add_reaction("vin", fnlib.const, args=["c"], stoichiometry={"x": Derived(fn=fnlib.const, args=["n"])})
         m.add_reaction("vout", fnlib.ma1, args=["x", "k"], stoichiometry={"x": -1})
     elif fam == "F2":
         m.add_reaction("vin", fnlib.const, args=["c"], stoichiometry={"x": 1})
@@ -67,6 +73,8 @@ def matrix(fam: str, p: dict) -> tuple[np.ndarray, np.ndarray]:
     """(A, b) of dy/dt = A y + b, written down from the spec (not from MxlPy)."""
     if fam == "F1":
         return np.array([[-p["k"]]]), np.array([p["c"]])
+    if fam == "F1n":
+        return np.array([[-p["k"]]]), np.array([p["n"] * p["c"]])
     if fam == "F2":
         return np.array([[-p["k1"], 0.0], [p["k1"], -p["k2"]]]), np.array([p["c"], 0.0])
     if fam == "F6":
@@ -102,7 +110,7 @@ def propagate(fam: str, p: dict, y: np.ndarray, t0: float, t1: float) -> np.ndar
 def rates(fam: str, p: dict, y: np.ndarray, t: float) -> dict[str, float]:
     """Reaction rates written down from the spec."""
     y = np.asarray(y, dtype=float)
-    if fam == "F1":
+    if fam in ("F1", "F1n"):
         return {"vin": p["c"], "vout": p["k"] * y[0]}
     if fam == "F2":
         return {"vin": p["c"], "v1": p["k1"] * y[0], "v2": p["k2"] * y[1]}
